@@ -358,6 +358,30 @@ def str_pieces(e) -> list:
                     rec(t[1])
                 else:
                     out.append(("fmt", t[2], t[1]))
+        elif x[0] == "filter" and x[1] == "format" and x[2][0] == "const" and isinstance(x[2][1], str) and not x[4]:
+            # Jinja's `"..%s..%.1f.." | format(a, b)` is printf-style: literal text, `%s` the value as it prints, `%<spec>` the value
+            # under that spec (the same mini-language as str.format's for the conversions used here), `%%` a percent sign
+            tmp, i, pos, t = [], 0, 0, x[2][1]
+            for mt in _re.finditer(r"%(?:(%)|([-+ #0]*\d*(?:\.\d+)?)([sdifeEgG]))", t):
+                tmp.append(("lit", t[pos:mt.start()]))
+                pos = mt.end()
+                if mt.group(1):
+                    tmp.append(("lit", "%"))
+                    continue
+                if i >= len(x[3]):
+                    out.append(("val", x)); return
+                tmp.append(("arg", x[3][i], "" if mt.group(3) == "s" and not mt.group(2) else mt.group(2) + ("d" if mt.group(3) == "i" else mt.group(3))))
+                i += 1
+            if i != len(x[3]) or "%" in _re.sub(r"%(?:%|[-+ #0]*\d*(?:\.\d+)?[sdifeEgG])", "", t):
+                out.append(("val", x)); return
+            tmp.append(("lit", t[pos:]))
+            for t_ in tmp:
+                if t_[0] == "lit":
+                    lit(t_[1])
+                elif t_[2] == "":
+                    rec(t_[1])
+                else:
+                    out.append(("fmt", t_[2], t_[1]))
         else:
             out.append(("val", x))
     rec(e)
@@ -378,6 +402,9 @@ def elementwise(seq, elt):
         if seq[3] and seq[3][0][0] == "const" and isinstance(seq[3][0][1], str) and not seq[4]:
             return base, ("filter", seq[3][0][1], inner, tuple(seq[3][1:]), ())
         return seq, elt
+    if seq[0] == "filter" and seq[1] == "list" and not seq[3] and not seq[4]:
+        # `.. | map(..) | list` materialises the same elements in the same order
+        return elementwise(seq[2], elt)
     return seq, elt
 
 
